@@ -437,9 +437,15 @@ theorem unpackRRs_wf {I : Idna} {buf : Bytes} : ∀ (k off : Nat) (cache : Cache
                     · exact ⟨hcn, getU16_lt ht, getU16_lt hc, getU32_lt httl, rrData_len hd (getU16_lt hl)⟩
                     · exact hwf r hr
 
-/-- everything `unpack` returns is well-formed, provided its record data is `rdataPlain` -/
-theorem unpack_wellFormed {I : Idna} {b : Bytes} {m : Msg} (h : unpack I b = some m)
-    (hp : ∀ r ∈ m.answers ++ m.authorities ++ m.additionals, rdataPlain r.type r.data = true) : WellFormed I m := by
+/-- `WellFormed` without the condition on record data -/
+def WellFormed0 (I : Idna) (m : Msg) : Prop :=
+  m.id < 65536 ∧ m.opCode < 16 ∧ m.reserved < 8 ∧ m.rcode < 16 ∧
+  m.questions.length < 65536 ∧ m.answers.length < 65536 ∧ m.authorities.length < 65536 ∧ m.additionals.length < 65536 ∧
+  (∀ q ∈ m.questions, WFQuestion I q) ∧
+  (∀ r ∈ m.answers, WFRR0 I r) ∧ (∀ r ∈ m.authorities, WFRR0 I r) ∧ (∀ r ∈ m.additionals, WFRR0 I r)
+
+/-- everything `unpack` returns has canonical names and fields in range -/
+theorem unpack_wellFormed0 {I : Idna} {b : Bytes} {m : Msg} (h : unpack I b = some m) : WellFormed0 I m := by
   unfold unpack at h
   cases hf : unpackFrom I b with
   | none => simp [hf] at h
@@ -480,19 +486,69 @@ theorem unpack_wellFormed {I : Idna} {b : Bytes} {m : Msg} (h : unpack I b = som
                 obtain ⟨l4, w4, cc4⟩ := unpackRRs_wf _ _ _ _ _ _ cc3 hr
                 have g1 := getU16_lt h1; have g2 := getU16_lt h2; have g3 := getU16_lt h3
                 have g4 := getU16_lt h4; have g5 := getU16_lt h5; have g6 := getU16_lt h6
-                simp only at hp
-                refine ⟨g1, by simp; omega, by simp; omega, by simp; omega, by simp; omega, by simp; omega, by simp; omega,
-                  by simp; omega, w1, ?_, ?_, ?_⟩
-                · intro r hr'
-                  obtain ⟨a1, a2, a3, a4, a5⟩ := w2 r hr'
-                  exact ⟨a1, a2, a3, a4, a5, hp r (by simp [hr'])⟩
-                · intro r hr'
-                  obtain ⟨a1, a2, a3, a4, a5⟩ := w3 r hr'
-                  exact ⟨a1, a2, a3, a4, a5, hp r (by simp [hr'])⟩
-                · intro r hr'
-                  obtain ⟨a1, a2, a3, a4, a5⟩ := w4 r hr'
-                  exact ⟨a1, a2, a3, a4, a5, hp r (by simp [hr'])⟩
+                exact ⟨g1, by simp; omega, by simp; omega, by simp; omega, by simp; omega, by simp; omega, by simp; omega,
+                  by simp; omega, w1, w2, w3, w4⟩
       · cases hf
     · cases h
+
+theorem WellFormed0.plain {I : Idna} {m : Msg} (h : WellFormed0 I m)
+    (hp : ∀ r ∈ m.answers ++ m.authorities ++ m.additionals, rdataPlain r.type r.data = true) : WellFormed I m := by
+  obtain ⟨a1, a2, a3, a4, a5, a6, a7, a8, a9, w2, w3, w4⟩ := h
+  refine ⟨a1, a2, a3, a4, a5, a6, a7, a8, a9, ?_, ?_, ?_⟩
+  · intro r hr'
+    obtain ⟨b1, b2, b3, b4, b5⟩ := w2 r hr'
+    exact ⟨b1, b2, b3, b4, b5, hp r (by simp [hr'])⟩
+  · intro r hr'
+    obtain ⟨b1, b2, b3, b4, b5⟩ := w3 r hr'
+    exact ⟨b1, b2, b3, b4, b5, hp r (by simp [hr'])⟩
+  · intro r hr'
+    obtain ⟨b1, b2, b3, b4, b5⟩ := w4 r hr'
+    exact ⟨b1, b2, b3, b4, b5, hp r (by simp [hr'])⟩
+
+/-- everything `unpack` returns is well-formed, provided its record data is `rdataPlain` -/
+theorem unpack_wellFormed {I : Idna} {b : Bytes} {m : Msg} (h : unpack I b = some m)
+    (hp : ∀ r ∈ m.answers ++ m.authorities ++ m.additionals, rdataPlain r.type r.data = true) : WellFormed I m :=
+  (unpack_wellFormed0 h).plain hp
+
+theorem packList_ok {α} {f : α → Option Bytes} : ∀ xs : List α, (∀ x ∈ xs, ∃ w, f x = some w) →
+    ∃ w, packList f xs = some w := by
+  intro xs
+  induction xs with
+  | nil => intro _; exact ⟨[], rfl⟩
+  | cons x xs ih =>
+    intro h
+    obtain ⟨a, ha⟩ := h x (by simp)
+    obtain ⟨b, hb⟩ := ih (fun y hy => h y (by simp [hy]))
+    exact ⟨a ++ b, by simp [packList, ha, hb]⟩
+
+theorem packQuestion_ok {I : Idna} {q : Question} (h : WFQuestion I q) : ∃ w, packQuestion I q = some w := by
+  obtain ⟨hc, ht, hcl⟩ := h
+  obtain ⟨ls, ps, hp, _⟩ := packName_canon hc
+  simp [packQuestion, hp, putU16, ht, hcl]
+
+theorem packRR_ok {I : Idna} {r : RR} (h : WFRR0 I r) : ∃ w, packRR I r = some w := by
+  obtain ⟨hc, ht, hcl, httl, hdl⟩ := h
+  obtain ⟨ls, ps, hp, _⟩ := packName_canon hc
+  simp [packRR, hp, putU16, putU32, ht, hcl, httl, hdl]
+
+theorem flagsOf_lt (m : Msg) (h1 : m.opCode < 16) (h2 : m.reserved < 8) (h3 : m.rcode < 16) : flagsOf m < 65536 := by
+  unfold flagsOf b2n
+  cases m.query <;> cases m.aa <;> cases m.tc <;> cases m.rd <;> cases m.ra <;> simp <;> omega
+
+/-- a message with canonical names and fields in range encodes -/
+theorem pack_ok {I : Idna} {m : Msg} (h : WellFormed0 I m) : ∃ b, pack I m = some b := by
+  obtain ⟨hid, hop, hres, hrc, hnq, hnan, hnns, hnar, hq, han, hns, har⟩ := h
+  obtain ⟨qsb, hqs⟩ := packList_ok m.questions (fun q hq' => packQuestion_ok (hq q hq'))
+  obtain ⟨rsb, hrs⟩ := packList_ok (m.answers ++ m.authorities ++ m.additionals) (fun r hr => by
+    rcases List.mem_append.mp hr with hr | hr
+    · rcases List.mem_append.mp hr with hr | hr
+      · exact packRR_ok (han r hr)
+      · exact packRR_ok (hns r hr)
+    · exact packRR_ok (har r hr))
+  have hfl := flagsOf_lt m hop hres hrc
+  have hguard : ¬ (65535 < m.id ∨ 15 < m.opCode ∨ 7 < m.reserved ∨ 15 < m.rcode) := by omega
+  have hrs' := hrs
+  simp only [List.append_assoc] at hrs'
+  simp [pack, hguard, putU16, hid, hfl, hnq, hnan, hnns, hnar, hqs, hrs']
 
 end MitmVerif.C25
